@@ -25,8 +25,13 @@ def chain_domain(tier, seed):
     return out
 
 
+def _opts(k, variant):
+    """option vectors of a hop: the emitters' defaults of the round-trip harness, and the same with default text off (then a default travels through the syntax only)"""
+    return dict(R.default_opts(k), emit_default_doc=False) if variant == "no-default-text" else R.default_opts(k)
+
+
 def _work(job):
-    kinds, label, ir = job
+    kinds, label, ir, variant = job
     from vf.pyvc.verify import preimport_meta
 
     preimport_meta()
@@ -34,16 +39,16 @@ def _work(job):
     cur = ir
     for hop, k in enumerate(kinds):
         src = R._for_emit(cur)
-        out, err = R.roundtrip(k, src, R.default_opts(k))
+        out, err = R.roundtrip(k, src, _opts(k, variant))
         if err:
             hops.append((hop, k, src, err, None))
-            return kinds, label, hops, None
-        ds = R.diff_ir(src, out, k, R.default_opts(k))
+            return (kinds, label, variant), label, hops, None
+        ds = R.diff_ir(src, out, k, _opts(k, variant))
         hops.append((hop, k, src, None, ds))
         if ds:
             # this hop already lost / changed something (a finding or a violation, judged by the caller): what a later
             # hop does with the damaged description is outside every hop contract's precondition
-            return kinds, label, hops, None
+            return (kinds, label, variant), label, hops, None
         cur = out
     # "never invented or swapped between parameters" - against the ORIGINAL description
     swaps = []
@@ -59,7 +64,7 @@ def _work(job):
                 if a_in and b_in and a_in != b_in and a_out == b_in and b_out == a_in:
                     swaps.append({"path": "params.%s.%s" % (n, fld), "want": pin[n].get(fld), "got": pout[n].get(fld), "swapped_from": m})
     invented = [n for n in pout if n not in pin]
-    return kinds, label, hops, (swaps, invented)
+    return (kinds, label, variant), label, hops, (swaps, invented)
 
 
 def check(run, record_expected=False):
@@ -71,20 +76,20 @@ def check(run, record_expected=False):
     chains = [p for p in itertools.permutations(R.KINDS, 2)]
     if run.tier == "thorough":
         chains += [p for p in itertools.permutations(R.KINDS, 3)]
-    jobs = [(list(c), label, ir) for c in chains for label, ir in dom]
+    jobs = [(list(c), label, ir, variant) for c in chains for label, ir in dom for variant in ("default", "no-default-text")]
     ctx = mp.get_context("fork")
     with ctx.Pool(16) as pool:
         res = pool.map(_work, jobs, chunksize=16)
     n_pass = 0
     distinct = set()
     samples = []
-    for kinds, label, hops, tail in res:
+    for (kinds, _label, variant), label, hops, tail in res:
         ir = irs[label]
-        distinct.add(common.sha([kinds, ir]))
-        tag = ">".join(kinds)
+        distinct.add(common.sha([kinds, ir, variant]))
+        tag = ">".join(kinds) + ("" if variant == "default" else "[no default text]")
         clean = True
         for hop, k, src, err, diffs in hops:
-            opts = R.default_opts(k)
+            opts = _opts(k, variant)
             entries = [{"path": "<exception>", "want": "no exception", "got": err}] if err else diffs
             for d in entries:
                 clean = False
@@ -102,7 +107,7 @@ def check(run, record_expected=False):
                             {"kind": "chain", "chain": kinds, "label": label, "ir": ir, "diff": d})
             for n in invented:
                 clean = False
-                c = ir_findings.context(kinds[-1], R.default_opts(kinds[-1]), ir, {"path": "params.<names>", "want": list(ir["params"]), "got": n})
+                c = ir_findings.context(kinds[-1], _opts(kinds[-1], variant), ir, {"path": "params.<names>", "want": list(ir["params"]), "got": n})
                 run.failure("chain/invented", "chain %s case %s: parameter %r was invented" % (tag, label, n),
                             {"kind": "chain", "rt_kinds": kinds, "chain": kinds, "label": label, "ir": ir, "diff": {"path": "params.<names>", "got": n}, "_ctx": c})
         if clean:
@@ -114,11 +119,11 @@ def check(run, record_expected=False):
     coverage = {
         "explanation": "C05-L: the result of a chain is the composition of the per-kind normalisations; its premises are the round-trip contracts "
                        "of C01-C04 (bounded) and the leaf obligations below (deductive: %d of %d discharged). BOUNDED decider: every ordered pair%s "
-                       "of the 7 kinds over a reduced D_IR (%d IRs); a diff entry must be explained by a finding of a kind on the chain; "
+                       "of the 7 kinds over a reduced D_IR (%d IRs) x 2 option vectors (the harness defaults, and default text off - then a default travels through the syntax only); a diff entry must be explained by a finding of a kind on the chain; "
                        "swapped or invented parameters are never explained." % (
                            ded["discharged"], ded["obligations"], " and every length-3 chain" if run.tier == "thorough" else "", len(dom)),
         "evaluations": len(res), "distinct_nontrivial": len(distinct), "samples": samples, "exhaustive": True,
-        "rule": "chains = permutations of {rest,numpydoc,google,class,function,method,argparse}; distinct by hash of (chain, IR)",
+        "rule": "chains = permutations of {rest,numpydoc,google,class,function,method,argparse}; distinct by hash of (chain, IR, option vector)",
         "obligations": ded["obligations"], "discharged": ded["discharged"], "functions_under_contract": ded["functions_under_contract"],
         "bounded": {"cases": len(res), "pass": n_pass, "chains": len(chains), "bound": "reduced D_IR, chain length <= %d" % (3 if run.tier == "thorough" else 2)},
     }
